@@ -1826,15 +1826,24 @@ func (c *Core) unsealInternal(ctx context.Context, rootKey []byte) error {
 		return err
 	}
 
-	if err := c.checkSelfInit(ctx); err != nil {
-		return err
+	// The barrier is unsealed from here on. If the unseal is refused or fails
+	// before the post-unseal setup, it has to be sealed again: a node that
+	// stays sealed must not keep the keyring around.
+	preUnseal := func(ctx context.Context) error {
+		if err := c.checkSelfInit(ctx); err != nil {
+			return err
+		}
+
+		if err := c.startClusterListener(ctx); err != nil {
+			return err
+		}
+
+		return c.startRaftBackend(ctx)
 	}
 
-	if err := c.startClusterListener(ctx); err != nil {
-		return err
-	}
-
-	if err := c.startRaftBackend(ctx); err != nil {
+	if err := preUnseal(ctx); err != nil {
+		err = errors.Join(err, c.sealManager.sealAll())
+		c.logger.Warn("OpenBao is sealed")
 		return err
 	}
 
